@@ -83,12 +83,14 @@ L1LocalStr(b, r) ==
   ELSE IF DEV_LocalCollapse /\ res.names = <<>> /\ res.ups = 1 THEN "./.."
   ELSE LocalStr(res)
 
-ResolveCase(b, r) ==
+ResolveCaseF(b, r, fin) ==
   LET x == RefResolve(b, r) IN
-  [fam |-> "addr", op |-> "resolve", final |-> b.kind \in {"final"}, a |-> BaseStr(b), b |-> LocalStr(r),
+  [fam |-> "addr", op |-> "resolve", final |-> fin, a |-> BaseStr(b), b |-> LocalStr(r),
    expect |-> [ok |-> x.ok, str |-> IF x.ok THEN BaseStr(x.b) ELSE ""],
    l1 |-> [ok |-> x.ok, str |-> IF ~x.ok THEN "" ELSE IF b.kind = "local" THEN L1LocalStr(b, r) ELSE BaseStr(x.b)],
    kind |-> b.kind]
+\* registry bases only through the Source route, versioned ones only through the FinalSource route, the others through both
+ResolveCases(b, r) == { ResolveCaseF(b, r, fin) : fin \in (IF b.kind = "final" THEN {TRUE} ELSE IF b.kind = "registry" THEN {FALSE} ELSE BOOLEAN) }
 
 \* composition: R(R(a,b),c) = R(a, R(b,c))
 ComposeCase(b, r1, r2) ==
@@ -124,7 +126,7 @@ ParseLocalCase(toks, trail) ==
    rec |-> [kind |-> "local"], kf06 |-> ""]
 
 AlgebraCases ==
-  { ResolveCase(b, r) : b \in Bases, r \in Rels }
+  UNION { ResolveCases(b, r) : b \in Bases, r \in Rels }
   \cup { AbsCase(b, c) : b \in Bases, c \in { x \in Bases : x.kind # "local" /\ Len(x.sub) <= 1 } }
   \cup { JoinCase(reg, rs, real, ls) : reg \in RegPkgs, rs \in Stacks(2), real \in RemotePkgs, ls \in Stacks(2) }
   \cup { ParseLocalCase(t, tr) : t \in RawRel, tr \in BOOLEAN }
@@ -144,7 +146,7 @@ UPaths  == { F("/x.git", "git"), F("/o/x.git", "git"), F("/x.tgz", "arch"), F("/
              F("/a%2Fb.git", "esc-git"), F("/a b.tgz", "raw-arch"), F("/x.TGZ", "zip") }
 Queries == { F("", "none"), F("?ref=main", "ref"), F("?ref=a&ref=b", "ref2"), F("?archive=tgz", "arch"), F("?archive=tar.gz", "arch"),
              F("?archive=zip", "archbad"), F("?checksum=1", "checksum"), F("?depth=1", "other"), F("?", "none"), F("?ref=", "ref"),
-             F("?archive=tgz&archive=tgz", "arch2"), F("?archive=tgz&checksum=1", "checksum") }
+             F("?archive=tgz&archive=tgz", "arch2"), F("?archive=tgz&checksum=1", "checksum"), F("?file=m.tar.gz&archive=tar.gz", "archx") }
 Frags   == { F("", "none"), F("#frag", "frag") }
 SubPs   == { F(<<>>, "none"), F(<<"sub">>, "ok"), F(<<"sub","dir">>, "ok"), F(<<".">>, "bad"), F(<<"..">>, "bad"),
              F(<<"sub","","x">>, "bad"), F(<<"","etc">>, "bad"), F(<<"sub",".","x">>, "bad"), F(<<"a b">>, "raw"), F(<<"a%20b">>, "esc") }
@@ -157,9 +159,10 @@ SrcType(ty, sc) == IF ty.tag # "none" THEN ty.tag ELSE sc.tag
 PredRec(ty, sc, us, ho, pa, qu, fr, su) ==
   [kind |-> "remote", type |-> SrcType(ty, sc), scheme |-> sc.tag, user |-> us.tag # "none",
    qkeys |-> CASE qu.tag = "none" -> {} [] qu.tag \in {"ref", "ref2"} -> {"ref"} [] qu.tag \in {"arch", "arch2", "archbad"} -> {"archive"}
-               [] qu.tag = "checksum" -> (IF qu.v = "?checksum=1" THEN {"checksum"} ELSE {"archive", "checksum"}) [] OTHER -> {"depth"},
+               [] qu.tag = "checksum" -> (IF qu.v = "?checksum=1" THEN {"checksum"} ELSE {"archive", "checksum"})
+               [] qu.tag = "archx" -> {"archive", "file"} [] OTHER -> {"depth"},
    qmultikeys |-> IF qu.tag = "ref2" THEN {"ref"} ELSE IF qu.tag = "arch2" THEN {"archive"} ELSE {},
-   archive |-> IF qu.tag \in {"arch", "arch2"} \/ qu.v = "?archive=tgz&checksum=1" THEN "tgz" ELSE IF qu.tag = "archbad" THEN "zip" ELSE "",
+   archive |-> IF qu.tag \in {"arch", "arch2", "archx"} \/ qu.v = "?archive=tgz&checksum=1" THEN "tgz" ELSE IF qu.tag = "archbad" THEN "zip" ELSE "",
    archpath |-> pa.tag \in {"arch", "raw-arch"},
    sub |-> su.v]
 
@@ -254,7 +257,7 @@ EmitAll(S) == \A c \in S : PrintT("@@" \o ToJson(c))
 CasesOf(pt) ==
   IF Part = "none" THEN {}
   ELSE IF Part = "algebra" THEN
-     CASE pt[1] = "resolve" -> { ResolveCase(b, r) : b \in { x \in Bases : x.kind = pt[2] }, r \in Rels }
+     CASE pt[1] = "resolve" -> UNION { ResolveCases(b, r) : b \in { x \in Bases : x.kind = pt[2] }, r \in Rels }
        [] pt[1] = "compose" -> { c \in ComposeCases : c.kind = pt[2] }
        [] OTHER -> { AbsCase(q[1], q[2]) : q \in { y \in Bases \X { x \in Bases : x.kind # "local" /\ Len(x.sub) <= 1 } :
                                      ("final" \in {y[1].kind, y[2].kind}) => "registry" \notin {y[1].kind, y[2].kind} } }
